@@ -9,6 +9,8 @@ structure DSt where
   now : Nat := 0
   nAddr : Nat := 9
   nDenom : Nat := 2
+  /-- chain reference ids the harness observes the sale-contract store for -/
+  nChain : Nat := 3
 
 def init : DSt := {}
 
@@ -48,7 +50,9 @@ def showState (d : DSt) : String :=
   let fu := match s.funders with
     | none => "none"
     | some l => if l.isEmpty then "none" else showNatList l   -- an empty list is stored as zero bytes = not found
-  s!"esc={esc} lic={lic} acc={acc} bal={bal} lk={lk} cl={cl} gr={gr} cfg={showOptNat s.feegranter}/{fu}/{showOptNat s.contract} n={s.nacc}"
+  -- sale-contract store: `chain:string` for every chain with a record (string 0 = the empty string)
+  let ct := joinOr ";" ((List.range d.nChain).filterMap fun ch => (s.contracts ch).map fun c => s!"{ch}:{c}")
+  s!"esc={esc} lic={lic} acc={acc} bal={bal} lk={lk} cl={cl} gr={gr} cfg={showOptNat s.feegranter}/{fu}/{ct} n={s.nacc}"
 
 def showRes : Res → String
   | .ok => "ok"
@@ -70,6 +74,18 @@ def parseOptAddrStr? (t : String) : Option (Option AddrStr) :=
 def parseOptNat? (t : String) : Option (Option Nat) :=
   if t == "-" then some none else (parseNat? t).map some
 
+/-- `0:1;2:0` = records (chain 0, string 1), (chain 2, the empty string), in proposal order; `-` = none -/
+def parsePair? (t : String) : Option (Nat × Nat) :=
+  match t.splitOn ":" with
+  | [a, b] =>
+    match parseNat? a, parseNat? b with
+    | some a, some b => some (a, b)
+    | _, _ => none
+  | _ => none
+
+def parsePairs? (t : String) : Option (List (Nat × Nat)) :=
+  if t == "-" then some [] else (t.splitOn ";").mapM parsePair?
+
 def apply (d : DSt) (t : Nat) (op : Op) : DSt × String :=
   let r := step d.s op
   let d' := { d with s := r.1, now := t }
@@ -86,10 +102,10 @@ def step (d : DSt) (args : List String) : DSt × String :=
     match parseNat? t, parseNat? sg, parseNat? cr, parseOptAddrStr? cl, parseInt? amt, parseNat? dn, parseNat? m with
     | some t, some sg, some cr, some cl, some amt, some dn, some m => apply d t (.create sg cr cl amt dn m t)
     | _, _, _, _, _, _, _ => (d, "bad-op")
-  | ["sale", t, cl, g, c] =>
-    match parseNat? t, parseOptAddrStr? cl, parseInt? g, parseNat? c with
-    | some t, some cl, some g, some c => apply d t (.sale cl g c t)
-    | _, _, _, _ => (d, "bad-op")
+  | ["sale", t, ch, cl, g, c] =>
+    match parseNat? t, parseNat? ch, parseOptAddrStr? cl, parseInt? g, parseNat? c with
+    | some t, some ch, some cl, some g, some c => apply d t (.sale ch cl g c t)
+    | _, _, _, _, _ => (d, "bad-op")
   | ["activate", t, sg, cr, stop] =>
     match parseNat? t, parseNat? sg, parseAddrStr? cr, parseNat? stop with
     | some t, some sg, some cr, some stop => apply d t (.activate sg cr stop t)
@@ -122,9 +138,9 @@ def step (d : DSt) (args : List String) : DSt × String :=
     match parseNat? t, parseNatList? l with
     | some t, some l => apply d t (.setFunders l)
     | _, _ => (d, "bad-op")
-  | ["setcontract", t, c] =>
-    match parseNat? t, parseOptNat? c with
-    | some t, some c => apply d t (.setContract c)
+  | ["setcontracts", t, l] =>
+    match parseNat? t, parsePairs? l with
+    | some t, some l => apply d t (.setContracts l)
     | _, _ => (d, "bad-op")
   | ["probe", a, t] =>
     match parseNat? a, parseNat? t with
